@@ -51,6 +51,8 @@ def fixed_cases(tier):
         spec = {"repr": r, "vis": "pub", "ident": "E", "enum_attrs": [],
                 "variants": [{"ident": "V%d" % i, "disc": str(v), "rename": ("n %d" % i if i % 2 else None)} for i, v in enumerate(vals)]}
         out.append({"spec": spec, "base": S.simple_config([]), "mods": list(range(len(VARIANTS))), "seed": 0})
+    for spec in C.run_count_specs([16, 17, 64, 65, 128, 129, 255, 256, 257]):
+        out.append({"spec": spec, "base": S.simple_config([]), "mods": [1, 6], "seed": 0})      # table, table_range
     return out
 
 
